@@ -298,6 +298,10 @@ def finish(eng, fi, c, fr, outcome):
         else:
             try:
                 ret_ty = c.extra['dep_ret'](eng, fr.ghost_inputs) if 'dep_ret' in c.extra else c.ret_ty
+                if fi is not None and fi.is_inline_callbacks and ret_ty == ('ref', 'Deferred'):
+                    # callers of an @inlineCallbacks function get a Deferred (the declared type); what the body returns
+                    # is the value that Deferred fires with
+                    ret_ty = ANY
                 res = (T.coerce(v, ret_ty) if ret_ty != ANY else v) if isinstance(v, V) else v
             except T.TypeMismatch as e:
                 eng.prove('type.result', z3.BoolVal(False), kind='type', note=str(e), props=c.props)
